@@ -120,6 +120,16 @@ func checkBatch(x *X, prop string, rs *ReqSc, prefix string, supported []kmip.Pr
 		}
 		if len(resp.BatchItem) != 1 || resp.BatchItem[0].ResultStatus != kmip.ResultStatusOperationFailed {
 			x.Reportf(prop+".not-rejected", why, "%s: must be rejected with a single failed item, got %d item(s) %s", desc, len(resp.BatchItem), respDesc(resp))
+			return
+		}
+		// the header of the rejection is held to the first sentence of the statement as well: its batch count is the
+		// number of items it carries, and it answers in the request's version when that version is one the server speaks
+		if resp.Header.BatchCount != 1 {
+			x.Reportf(prop+".batch-count", "rejection:"+why, "%s: rejection carries one item but header BatchCount=%d", desc, resp.Header.BatchCount)
+			return
+		}
+		if versionOK && resp.Header.ProtocolVersion != req.Header.ProtocolVersion {
+			x.Reportf(prop+".version-echo", "rejection:"+why, "%s: rejection answers in version %v", desc, resp.Header.ProtocolVersion)
 		}
 		return
 	}
